@@ -79,6 +79,12 @@ def plan(tier, seed):
                           cfgs=cfgs_ar if ar else cfgs, autoref=ar,
                           examples=1200 if tier == 'thorough' else 350,
                           min_len=8, max_len=40))
+    for s in range(4 if tier == 'thorough' else 1):
+        specs.append(dict(kind='random', seed=seed * 1000 + 90 + s,
+                          cfgs=cfgs, autoref=False, pyopt=True,
+                          exclude=['bad', 'full', 'decref_zero'],
+                          examples=800 if tier == 'thorough' else 200,
+                          min_len=8, max_len=40))
     return specs
 
 
